@@ -80,7 +80,7 @@ func (Engine) Run(t *tape.Tape, o eng.Opts) *eng.Result {
 	if sw.Intn(4) == 1 {
 		p.MaxActs, p.NextMax = 5, 3
 	}
-	cfg := sched.Config{Sched: t.Stream("sched"), Time: t.Stream("time"), MaxSteps: 8000, KeepLog: o.Trace}
+	cfg := sched.Config{Sched: t.Stream("sched"), Time: t.Stream("time"), MaxSteps: world.StepCap(8000), KeepLog: o.Trace}
 	world.PickPolicy(sw, &cfg)
 	setup := world.GenSetup(gen, p)
 	reqs := world.GenRequests(gen, fg, setup, p)
